@@ -1,5 +1,6 @@
 import ScriggoV.Lemmas.Runs
 import ScriggoV.Gen.SharedWrites
+import ScriggoV.Lemmas.GlobalInit
 /-! # C10 — compiled programs and templates run in isolation, repeatedly and concurrently
 
 Property theorems only.  `noninterference` and `runs_repeatable` are about the abstract machine of
@@ -301,5 +302,93 @@ theorem callables_allocated_by_runs :
 
 /-- **frame fact 6**: what is stored into the shared constant table is known (and immutable) -/
 theorem general_stores_known : generalStores = knownGeneralStores := by decide
+
+/-! ## State across runs: where a variable's storage comes from
+
+The only channel through which storage allocated at BUILD time reaches every run is
+`compiler.Global.Value`: `initPackageLevelVariables` (programs.go) and `initGlobalVariables`
+(templates.go) hand `Global.Value` itself to the VM when it is valid and allocate a new variable
+otherwise (Model/GlobalInit.lean; the two functions' uses of the field are the generated list
+`globalValueUses`). So: value invalid ⇒ a cell of its own in every run; value valid ⇒ one cell for
+all runs — which is right exactly for the variables the embedder declared with a non-nil pointer
+(shared on purpose) and wrong for everything else. -/
+
+open ScriggoV.GlobalInit in
+/-- **state fact A**: a global without a build-time value lives in different cells in any two runs
+(the allocator never hands out a cell twice: the second run's allocator starts at or after the
+point where the first one's stopped) -/
+theorem invalid_global_value_fresh_per_run (gs : List Global) (n0 n1 i c1 c2 : Nat)
+    (hg : gs[i]? = some ⟨none⟩) (hn : (initVars gs n0).2 ≤ n1)
+    (h1 : (initVars gs n0).1[i]? = some c1) (h2 : (initVars gs n1).1[i]? = some c2) : c1 ≠ c2 := by
+  have a := (invalid_value_cell_is_new gs n0 i c1 hg h1).2
+  have b := (invalid_value_cell_is_new gs n1 i c2 hg h2).1
+  omega
+
+open ScriggoV.GlobalInit in
+/-- **state fact B**: a global with a build-time value lives in that one cell in every run -/
+theorem valid_global_value_shared_by_all_runs (gs : List Global) (n0 n1 i c : Nat)
+    (hg : gs[i]? = some ⟨some c⟩) :
+    (initVars gs n0).1[i]? = some c ∧ (initVars gs n1).1[i]? = some c :=
+  ⟨valid_value_cell_is_the_recorded_one gs n0 i c hg, valid_value_cell_is_the_recorded_one gs n1 i c hg⟩
+
+open ScriggoV.GlobalInit in
+/-- non-vacuity: a Scriggo package variable, `h.PtrN` (declared with &hostN, cell 3) and `h.NilN`
+(declared with a nil pointer); two runs -/
+example : (initVars [⟨none⟩, ⟨some 3⟩, ⟨none⟩] 10).1 = [10, 3, 11]
+    ∧ (initVars [⟨none⟩, ⟨some 3⟩, ⟨none⟩] (initVars [⟨none⟩, ⟨some 3⟩, ⟨none⟩] 10).2).1 = [12, 3, 13] := by decide
+
+/-- every place that makes a `Global` or sets its `Value`:
+* `emitPackage`: a Scriggo package-level variable — `reflect.Value{}` (invalid): per run;
+* `newGlobal`: the constructor, stores the `value` parameter it is given (its two callers follow);
+* `predefVarIndex`: a native variable (package variable or template global declared by the
+  embedder) — built invalid, then `g.Value = *v` only under `v.IsValid()`, where `v` is the
+  `*reflect.Value` made by `toTypeCheckerScope` (`nativeVarImport` below): `rv.Elem()` of the
+  DECLARED pointer, invalid for a nil pointer. Valid ⇔ the embedder gave a non-nil pointer. -/
+def knownGlobalValueStores : List Site := [
+  ⟨"internal/compiler/emitter.go", "(*emitter).emitPackage", "call", "if ok then", "newGlobal(pkg.Name, v.Name, varType, reflect.Value{})", "964ef0bef436"⟩,
+  ⟨"internal/compiler/emitter_util.go", "newGlobal", "literal", "-", "value", "308bac741912"⟩,
+  ⟨"internal/compiler/emitter_var_store.go", "(*varStore).predefVarIndex", "assign", "if !ok then; if v.IsValid() then", "g.Value = *v", "2abbbc2c9c7c"⟩,
+  ⟨"internal/compiler/emitter_var_store.go", "(*varStore).predefVarIndex", "call", "if !ok then", "newGlobal(pkg, name, typ, reflect.Value{})", "adce229a06b2"⟩]
+
+/-- the readers of `Global.Value`: the two initialisers modelled by `GlobalInit.initVars` (in
+`initGlobalVariables` also the guard that a variable given to `Run` is not already initialised) -/
+def knownGlobalValueUses : List Site := [
+  ⟨"programs.go", "initPackageLevelVariables", "use", "-", "if global.Value.IsValid()", "33be252ea521"⟩,
+  ⟨"programs.go", "initPackageLevelVariables", "use", "if global.Value.IsValid() then", "values[i] = global.Value", "d6d8873f192c"⟩,
+  ⟨"templates.go", "initGlobalVariables", "use", "if variable.Pkg == \"main\" then; if ok then", "if variable.Value.IsValid()", "98b41210fb12"⟩,
+  ⟨"templates.go", "initGlobalVariables", "use", "-", "if variable.Value.IsValid()", "98b41210fb12"⟩,
+  ⟨"templates.go", "initGlobalVariables", "use", "if variable.Value.IsValid() then", "values[i] = variable.Value", "2208e5fddaed"⟩]
+
+/-- storage allocated by the compiler while building: the results of constant complex arithmetic
+and of a complex constant's conversion — each is read out at once (`.Interface()` / stored as an
+immutable constant); none is a variable's storage -/
+def knownBuildTimeAllocs : List Site := [
+  ⟨"internal/compiler/builder.go", "addComplex", "reflect.New", "-", "v3 := reflect.New(v1.Type()).Elem()", "57829f4af285"⟩,
+  ⟨"internal/compiler/builder.go", "divComplex", "reflect.New", "-", "v3 := reflect.New(v1.Type()).Elem()", "57829f4af285"⟩,
+  ⟨"internal/compiler/builder.go", "mulComplex", "reflect.New", "-", "v3 := reflect.New(v1.Type()).Elem()", "57829f4af285"⟩,
+  ⟨"internal/compiler/builder.go", "negComplex", "reflect.New", "-", "v2 := reflect.New(v.Type()).Elem()", "2b7d2e3b3f0f"⟩,
+  ⟨"internal/compiler/builder.go", "subComplex", "reflect.New", "-", "v3 := reflect.New(v1.Type()).Elem()", "57829f4af285"⟩,
+  ⟨"internal/compiler/typeinfo.go", "(*typeInfo).setValue", "reflect.New", "-", "rv := reflect.New(typ).Elem()", "eb326fa661d2"⟩]
+
+/-- how a declared variable is imported: the value is `rv.Elem()` of the declared pointer itself —
+no allocation, invalid for a nil pointer -/
+def knownNativeVarImport : List String := [
+  "ti.Type = rv.Type().Elem()",
+  "elem := rv.Elem()",
+  "ti.value = &elem",
+  "ti.Properties |= propertyAddressable | propertyIsNative | propertyHasValue"]
+
+/-- **state fact 1**: a `Global` gets a build-time value only in `predefVarIndex`, under
+`v.IsValid()` -/
+theorem global_value_stores_known : globalValueStores = knownGlobalValueStores := by decide
+
+/-- **state fact 2**: `Global.Value` is read by the two initialisers only, as modelled -/
+theorem global_value_uses_known : globalValueUses = knownGlobalValueUses := by decide
+
+/-- **state fact 3**: the compiler allocates no variable storage while building -/
+theorem build_time_allocs_known : buildTimeAllocs = knownBuildTimeAllocs := by decide
+
+/-- **state fact 4**: a declared variable's value is the embedder's own pointer's target -/
+theorem native_var_import_known : nativeVarImport = knownNativeVarImport := by decide
 
 end ScriggoV.Runs
